@@ -24,7 +24,7 @@ CLAIMED["C01"] = dict(
     technique="Coq proof (invariants over all answer interleavings) + model/implementation correspondence + Coq oracle on observed traces",
     ref="5/C01")
 CLAIMED["C02"] = dict(
-    text="Coq theorems: every dispatch of every run is an Input exactly when the component is a root or a wired input was reported changed this tick (with exactly those changes), a Skip otherwise; nothing outside the roots' closure is touched; at the end every participant was dispatched exactly once (C02_tick, C02_untouched, C02_all_participants_dispatched_once); DeviceComponent reports a port iff it differs from the previous report (C02_diff, C02_diff_history). Tied to Ticker and DeviceComponent by correspondence runs (all answer orders on small wirings; exhaustive omit/repeat/change histories of the device component).",
+    text="Coq theorems: every dispatch of every run is an Input exactly when the component is a root or a wired input was reported changed this tick (with exactly those changes), a Skip otherwise; nothing outside the roots' closure is touched; at the end every participant was dispatched exactly once (C02_tick, C02_untouched, C02_all_participants_dispatched_once); DeviceComponent reports a port iff it differs from the previous report (C02_diff, C02_diff_history); on the whole-simulation model, at every nesting level, the extent bookkeeping never decides anything: a tick is the fold of a step in which a component is processed exactly when it is a root or a change was routed to it in this tick (C02_sim_update_iff_root_or_changed, C02_sim_untouched). Tied to Ticker and DeviceComponent by correspondence runs (all answer orders on small wirings; exhaustive omit/repeat/change histories of the device component).",
     note="Trusted: Coq kernel + vm_compute, harness (scripted device, probe adapters, recording producer). Python == on values is integer equality in the correspondence. Devices are assumed to return fresh mappings (a device mutating the dict it returned last time defeats last_outputs).",
     technique="Coq proof (invariants over all answer interleavings; filter characterisation) + model/implementation correspondence",
     ref="5/C02")
